@@ -253,6 +253,7 @@ func (l *log) ConsumeByKey(key []byte, offset int64, maxCount int64) (int64, []m
 
 	rdr, segmentIndex := segment.Consume(l.readers, offset)
 	for {
+		vhook.At("consumebykey.segment")
 		nextOffset, msgs, err := rdr.ConsumeByKey(key, hash, offset, maxCount)
 		if err != nil {
 			return nextOffset, msgs, err
@@ -304,6 +305,7 @@ func (l *log) GetByKey(key []byte) (message.Message, error) {
 
 	for i := len(l.readers) - 1; i >= 0; i-- {
 		rdr := l.readers[i]
+		vhook.At("getbykey.segment")
 
 		switch msg, err := rdr.GetByKey(key, hash, tctx); err {
 		case nil:
@@ -341,6 +343,7 @@ func (l *log) GetByTime(start time.Time) (message.Message, error) {
 	emptyHead := false
 	for i := len(l.readers) - 1; i >= 0; i-- {
 		rdr := l.readers[i]
+		vhook.At("getbytime.segment")
 
 		switch msg, err := rdr.GetByTime(ts, tctx); err {
 		case nil:
@@ -360,6 +363,7 @@ func (l *log) GetByTime(start time.Time) (message.Message, error) {
 			nextIsEmptyHead := emptyHead && i == len(l.readers)-2
 			if i < len(l.readers)-1 && !nextIsEmptyHead {
 				nextRdr := l.readers[i+1]
+				vhook.At("getbytime.next")
 				return nextRdr.Get(message.OffsetOldest)
 			}
 			// (when the head segment was empty as we looked at it, do not look again:
